@@ -107,7 +107,7 @@ class HistGen:
         self.domain = r.choice([b't.example.com', b'tun.x.org', b'a.bc'])
         self.password = bytes(r.randrange(1, 256) for _ in range(r.choice([0, 3, 8, 32])))
         self.check_ip = r.choice([1, 1, 1, 0])
-        nb = r.choice([27, 27, 24, 29, 30, 16])
+        nb = r.choice([27, 27, 24, 28, 29, 30, 16])
         self.netbits = nb
         self.myip = r.choice(['10.0.0.1', '10.0.0.3', '192.168.7.1', '172.16.0.2'])
         self.mtu = r.choice([1130, 1200, 1500])
@@ -137,6 +137,18 @@ class HistGen:
             ips.append(ipn)
         self.tun_ips = ips
         self.nusers = n
+
+    def adv_uid(self, wide=False):
+        """a user id aimed at the bounds checks: the first id past the created users, the last created one, 15, or any"""
+        r = self.rng
+        k = r.randrange(4)
+        if k == 0:
+            return min(self.nusers, 255 if wide else 15)
+        if k == 1:
+            return self.nusers - 1
+        if k == 2:
+            return 15
+        return r.randrange(256 if wide else 16)
 
     def cfg(self):
         return '%s %s %d %s %d %d %s %d' % (self.domain.hex(), vlib.hexs(self.password), self.check_ip, self.myip,
@@ -272,7 +284,7 @@ class HistGen:
         r = self.rng
         uid = s.uid if s.uid is not None else r.randrange(16)
         if r.random() < self.adv:
-            uid = r.randrange(256)
+            uid = self.adv_uid(wide=True)
         if dup_of is not None:
             name, qt = dup_of
             self.emit_query(s.addr, name, qtype=qt)
@@ -299,7 +311,7 @@ class HistGen:
             return
         uid = s.uid if s.uid is not None else r.randrange(16)
         if r.random() < self.adv:
-            uid = r.randrange(16)
+            uid = self.adv_uid()
         if payload is None:
             payload = bytes(r.randrange(256) for _ in range(r.choice([1, 5, 20, 60, 100])))
         if last is None:
@@ -385,7 +397,7 @@ class HistGen:
         r = self.rng
         uid = s.uid if s.uid is not None else r.randrange(16)
         if r.random() < self.adv:
-            uid = r.randrange(16)
+            uid = self.adv_uid()
         if kind is None:
             kind = r.choice(['login', 'login', 'data', 'ping', 'badlogin', 'junk'])
         hdr = bytes([0x10, 0xd1, 0x9e])
